@@ -81,6 +81,19 @@ prop('C08',
   "Not decided: permutations as executed histories; behaviour of user callbacks.",
   "custom AST/CFG checker: dominance/must-precede, exception containment, iteration-vs-mutation, constant evaluation of string-parsing expressions, once-only call-chain analysis", "DESIGN.md 5/C08")
 
+prop('C17',
+  "Static analysis of /repo's current source: decides structural necessary conditions - PortCollection._forget masks the number and drops "
+  "the local copy on every path, _update unmasks, drops the same-numbered port then stores the new one, _reset clears both; a chained lookup "
+  "returns only unmasked ports and a miss raises; keys() is chain keys minus masks plus own and every derived view uses keys()/__getitem__ "
+  "only; query methods return on every path; the original port set is written only by the features-reply handlers and the live view only "
+  "by port-status/features handling with DELETE->_forget, else->_update; in the stats reassembly a part is appended only when both xid "
+  "and type continue the pending sequence (all four combinations decided by path-sensitive reachability), otherwise the pending parts are "
+  "replaced; the aggregate handler is reachable only for the final part, at most once, after the pending list has been reset, with the "
+  "saved parts; list-bodied aggregate handlers concatenate every part in order; all names/attributes on these paths exist. Decides these "
+  "conditions, not lookups by name/address after renames or event payloads.",
+  "Not decided: name/hw-address lookup after a rename (stale chained entry), payload contents, interleavings of replies beyond the enumerated cases.",
+  "custom AST/CFG checker: effect intervals, path-sensitive reachability under constant environments, ownership, must-precede, definiteness", "DESIGN.md 5/C17")
+
 NOT_APPLICABLE = {
   'C16': "Address types: the statement is about numeric/textual agreement over the whole address domain (byte order, mask arithmetic, CIDR parsing, zero-run compression, round trips, rejection of malformed text) - results of computations on runtime values; no shape-level rule is a necessary and telling condition for it (DESIGN.md section 7).",
 }
